@@ -16,7 +16,8 @@ RULE = ('tie: for every univariate class (x constructor options: TruncatedGaussi
         '[const,const2], [c,A] for the special constants c = 0.0, -0.0, tiny (denormal..1e-300), huge (1e150..1e300), '
         '[A,0.0,B], plus random histories of 1-4 fits over a pool of 6 constant and 6 non-constant datasets of '
         'different ranges (normal/uniform/gamma) and sizes (20-80); after every fit the real object is observed '
-        '(fitted, to_dict, cdf/ppf on 11+3 probes, whether the four bound methods are the constant overrides, '
+        '(fitted, to_dict, EVERY public query: cdf/cumulative_distribution, pdf/probability_density, log pdf on 11 probes, '
+        'ppf/percent_point on 3, seeded sample(5); whether each of the four bound methods is the constant override, '
         'min/max/_sample_size) and compared with the Lean prediction under each of the 8 variants '
         '(keepOverride, rememberBounds, cacheSize); parameter terms are evaluated by a fresh real instance built '
         'with the options the term names, global RNG pinned before every fit. The same for the Univariate wrapper '
@@ -27,7 +28,10 @@ RULE = ('tie: for every univariate class (x constructor options: TruncatedGaussi
         'wrapper, GaussianMultivariate, bivariate families and vines; vines fitted / evaluated under numpy.empty '
         'poisoned with two different sentinels. A case is distinct by (class, options, history of dataset '
         'descriptors) and non-trivial when the history has >= 2 fits or the input is invalid.')
-PARTIAL = ['refit_pure is false of the code as found (refit_pure_asFound_counterexample + the three situations); '
+PARTIAL = ['GaussianKDE keeps `_model` of an earlier non-constant fit through a constant fit and log_probability_density '
+           '(not overridden) answers from it: not a flag of the Lean model; the tie skips log pdf for a KDE after a constant '
+           'fit and the refit oracle reports it (class GaussianKDE.log_probability_density:stale-model-after-constant-refit)',
+           'refit_pure is false of the code as found (refit_pure_asFound_counterexample + the three situations); '
            'refit_pure_partial covers the as-found model on histories avoiding them; the full statement is proved of '
            'the repaired model only',
            'unfitted_raises_partial: the generated guard table proves check_fit-first only for copulas.univariate, '
@@ -49,6 +53,7 @@ K_TAU = 'Tree.get_tau_matrix:reads-unwritten-cells'
 K_LIK = 'Edge.get_likelihood:reads-unwritten-cells'
 K_TAUSER = 'Tree.get_tau_matrix:unwritten-cells-serialised'
 K_CLONE = 'get_instance:undecorated-init-loses-options'
+K_STALE = 'GaussianKDE.log_probability_density:stale-model-after-constant-refit'
 
 OVR = ('cumulative_distribution', 'percent_point', 'probability_density', 'sample')
 XPROBES = np.array([-5.0, 0.0, 2.5, 3.0, 5.0, 7.0, 10.0, 22.0, 25.0, 28.0, 40.0])
@@ -158,9 +163,28 @@ def _call(f, *a):
     try:
         with np.errstate(all='ignore'), warnings.catch_warnings():
             warnings.simplefilter('ignore')
-            return np.asarray(f(*a), dtype=float).tolist()
+            r = f(*a)
+        arr = np.asarray(r)
+        if arr.dtype == object:      # e.g. an array of None: not a numeric answer at all
+            return 'non-numeric ' + repr(arr.ravel().tolist())[:80]
+        return np.asarray(r, dtype=float).tolist()
     except Exception as e:  # noqa
         return 'raised ' + vc.exc_kind(e) + ':' + type(e).__name__
+
+
+def _call_seeded(f, *a):
+    """a sampler with the global generator pinned (objects with their own random_state use that)."""
+    st = np.random.get_state()
+    np.random.seed(97531)
+    try:
+        return _call(f, *a)
+    finally:
+        np.random.set_state(st)
+
+
+# every public query of a univariate object: canonical names and their aliases, seeded sample
+QKEYS = ('cdf', 'cumulative_distribution', 'pdf', 'probability_density', 'logpdf', 'ppf', 'percent_point', 'sample')
+NSAMPLE = 5
 
 
 def observe(m):
@@ -172,7 +196,11 @@ def observe(m):
     except Exception as e:  # noqa
         td = 'raised ' + vc.exc_kind(e)
     return {'fitted': bool(m.fitted), 'override': const_override(inner) if inner is not None else None,
-            'to_dict': td, 'cdf': _call(m.cdf, XPROBES), 'ppf': _call(m.ppf, UPROBES)}
+            'to_dict': td, 'cdf': _call(m.cdf, XPROBES), 'cumulative_distribution': _call(m.cumulative_distribution, XPROBES),
+            'pdf': _call(m.pdf, XPROBES), 'probability_density': _call(m.probability_density, XPROBES),
+            'logpdf': _call(m.log_probability_density, XPROBES),
+            'ppf': _call(m.ppf, UPROBES), 'percent_point': _call(m.percent_point, UPROBES),
+            'sample': _call_seeded(m.sample, NSAMPLE)}
 
 
 def hidden(m):
@@ -180,12 +208,11 @@ def hidden(m):
 
 
 def obs_equal(a, b):
-    return a['fitted'] == b['fitted'] and feq(a['override'], b['override']) and feq(a['to_dict'], b['to_dict']) \
-        and feq(a['cdf'], b['cdf']) and feq(a['ppf'], b['ppf'])
+    return not obs_diff(a, b)
 
 
 def obs_diff(a, b):
-    return [k for k in ('fitted', 'override', 'to_dict', 'cdf', 'ppf') if not feq(a[k], b[k])]
+    return [k for k in ('fitted', 'override', 'to_dict') + QKEYS if not feq(a[k], b[k])]
 
 
 def fit_pinned(m, X, seed):
@@ -261,10 +288,14 @@ def expected_from_step(step, ref_obs):
     c = None if ov == '-' else vc.h2f(ov)
     exp = {'fitted': fitted == '1', 'override': c, 'to_dict': ref_obs['to_dict']}
     if c is None:
-        exp['cdf'], exp['ppf'] = ref_obs['cdf'], ref_obs['ppf']
+        for k in QKEYS:
+            exp[k] = ref_obs[k]
     else:
-        exp['cdf'] = (XPROBES >= c).astype(float).tolist()
-        exp['ppf'] = np.full(UPROBES.shape, c).tolist()
+        exp['cdf'] = exp['cumulative_distribution'] = (XPROBES >= c).astype(float).tolist()
+        exp['ppf'] = exp['percent_point'] = np.full(UPROBES.shape, c).tolist()
+        exp['pdf'] = exp['probability_density'] = (XPROBES == c).astype(float).tolist()
+        exp['sample'] = np.full(NSAMPLE, c).tolist()
+        exp['logpdf'] = ref_obs['logpdf']      # log_probability_density is not among the overridden attributes
     exp['hidden'] = {'min': None if mn == '-' else vc.h2f(mn), 'max': None if mx == '-' else vc.h2f(mx),
                      'ss': None if ss == '-' else int(ss)}
     return exp
@@ -331,8 +362,13 @@ def tie_histories(ctx, lean):
                             ctx.count('hist:reference-fit-raised')
                             continue
                         ob, hid = real[j]
-                        if not obs_equal(ob, exp):
-                            ok, why = False, {'step': j, 'differs': obs_diff(ob, exp)}
+                        # GaussianKDE keeps `_model` of an earlier non-constant fit through a constant one and
+                        # log_probability_density (not overridden) answers from it: not a flag of the model; the
+                        # refit oracle reports it under K_STALE
+                        skip = ('logpdf',) if cls.__name__ == 'GaussianKDE' and step.split(';')[2].startswith('const') else ()
+                        dd = [k for k in obs_diff(ob, exp) if k not in skip]
+                        if dd:
+                            ok, why = False, {'step': j, 'differs': dd}
                             break
                         if v[1] == '1' and not (feq(hid['min'], exp['hidden']['min']) and feq(hid['max'], exp['hidden']['max'])):
                             ok, why = False, {'step': j, 'differs': ['self.min/self.max'], 'real': hid, 'model': exp['hidden']}
@@ -447,6 +483,10 @@ def tie_query_dispatch(ctx, lean):
                           ('const-0-then-regular', lambda: _fitted(cls, np.full(25, -0.0), A))):
             m = mk()
             ov = const_override(m)
+            if ov == 'partial':      # the model installs / removes the four overrides together
+                bad = bad or {'class': cname, 'state': state, 'real': 'only some of the constant overrides are bound: '
+                              + ','.join(a for a in OVR if a in m.__dict__), 'model': 'all four or none'}
+                continue
             for q, meth in qs.items():
                 pred = lean.ask(f'life query {int(m.fitted)} {"-" if ov is None else vc.f2h(ov)} {int(m._params is not None)} {q}')
                 arg = 3 if q == 'sample' else (UPROBES if q == 'ppf' else XPROBES)
@@ -475,11 +515,13 @@ def _fitted(cls, *datasets):
 
 
 # ------------------------------------------------------------------------- refit oracle (real code only)
-def neutralise(m, which=('override', 'bounds', 'size')):
+def neutralise(m, which=('override', 'bounds', 'size', 'model')):
     """undo recorded leaks on a univariate object (constructor options from __args__/__kwargs__)."""
     if 'override' in which:
         for a in OVR + ('_constant_value',):
             m.__dict__.pop(a, None)
+    if 'model' in which:
+        m.__dict__.pop('_model', None)
     fresh = type(m)(*copy.deepcopy(getattr(m, '__args__', ())), **copy.deepcopy(getattr(m, '__kwargs__', {})))
     attrs = (('min', 'max') if 'bounds' in which else ()) + (('_sample_size',) if 'size' in which else ())
     for a in attrs:
@@ -513,7 +555,7 @@ def refit_oracle(ctx, cls, kw, descs, seed0, report=True):
     obsd = {'differs': diffs, 'refit': _brief(o1), 'fresh': _brief(o2)}
     # attribute the difference: a recorded leak is a cause iff undoing it alone changes what the refit gives
     causes = []
-    for which, key in (('override', K_OVR), ('bounds', K_BND), ('size', K_KDE)):
+    for which, key in (('override', K_OVR), ('bounds', K_BND), ('size', K_KDE), ('model', K_STALE)):
         mk = copy.deepcopy(m3)
         neutralise(mk, (which,))
         try:
@@ -533,6 +575,11 @@ def refit_oracle(ctx, cls, kw, descs, seed0, report=True):
     if not causes or not clean:
         causes.append(f'{cls.__name__}.fit:refit-differs-from-fresh')
         obsd['after_neutralising_recorded_leaks'] = None if o3 is None else obs_diff(o3, o2)
+    surviving = [a for a in OVR if a in m1.__dict__] if len(np.unique(last)) > 1 else []
+    if K_OVR in causes and 0 < len(surviving) < len(OVR):
+        # only some of the instance-level constant methods survived: name them
+        causes = [k for k in causes if k != K_OVR] + [f'ScipyModel.fit:{a}-override-survives-refit' for a in surviving]
+        obsd['surviving_instance_overrides'] = surviving
     for k in causes:
         found.add(k)
         if report:
@@ -545,8 +592,10 @@ def _brief(o):
     td = o['to_dict']
     if isinstance(td, dict):
         td = {k: (v if not isinstance(v, list) else f'list[{len(v)}]') for k, v in td.items()}
-    return {'override': o['override'], 'to_dict': td, 'cdf': o['cdf'][:6] if isinstance(o['cdf'], list) else o['cdf'],
-            'ppf': o['ppf']}
+    out = {'override': o['override'], 'to_dict': td}
+    for k in QKEYS:
+        out[k] = o[k][:6] if isinstance(o[k], list) else o[k]
+    return out
 
 
 def oracle_uni(ctx, rng, n_random, forced=True):
@@ -554,8 +603,10 @@ def oracle_uni(ctx, rng, n_random, forced=True):
     checked = 0
     for cls, kw in uni_configs():
         P = pool(rng)
-        special = [[8, 2], [9, 3], [10, 2], [11, 3], [2, 8, 3]]      # value-dependent clean-ups: always exercised
-        hists = ([[0, 2], [2, 3], [2, 0], [2, 7], [0, 2, 3], [2, 0, 3]] if forced else []) + special + \
+        # always exercised (search too): constant->data for every special constant, data->constant, constant c1->c2
+        # (incl. 0 on either side), data A->data B, and a constant sandwiched between data
+        special = [[8, 2], [9, 3], [10, 2], [11, 3], [2, 8, 3], [0, 2], [2, 0], [3, 8], [0, 1], [0, 8], [8, 1], [9, 10], [2, 3]]
+        hists = ([[2, 7], [0, 2, 3], [2, 0, 3]] if forced else []) + special + \
             [[rng.randrange(len(P)) for _ in range(rng.randint(2, 4))] for _ in range(n_random)]
         for h in hists:
             seed0 = rng.randrange(1 << 20)
@@ -975,8 +1026,23 @@ def prototypes():
         (GaussianMultivariate, [], {'distribution': {'c0': U.GaussianKDE}}),
         (GaussianMultivariate, ['copulas.univariate.gaussian.GaussianUnivariate'], {'random_state': 4}),
         (VineCopula, ['center'], {}), (VineCopula, [], {'vine_type': 'regular'}), (VineCopula, ['direct'], {'random_state': 2}),
+        # falsy-but-meaningful option values (0, 0.0, seed 0, empty-but-legal list), by keyword, positional and mixed;
+        # 4th component: data on which the clone and a directly constructed equal object are fitted and compared
+        (U.TruncatedGaussian, [], {'minimum': 0, 'maximum': 12}, {'kind': 'uniform', 'a': 1.0, 'b': 11.0, 'n': 40, 'seed': 31}),
+        (U.TruncatedGaussian, [], {'minimum': 0.0}, {'kind': 'uniform', 'a': 1.0, 'b': 11.0, 'n': 40, 'seed': 32}),
+        (U.TruncatedGaussian, [], {'maximum': 0}, {'kind': 'uniform', 'a': -9.0, 'b': -1.0, 'n': 40, 'seed': 33}),
+        (U.TruncatedGaussian, [], {'minimum': -5.0, 'maximum': 0.0}, {'kind': 'uniform', 'a': -4.5, 'b': -0.5, 'n': 40, 'seed': 34}),
+        (U.TruncatedGaussian, [0, 12], {}, {'kind': 'uniform', 'a': 1.0, 'b': 11.0, 'n': 40, 'seed': 35}),
+        (U.TruncatedGaussian, [0], {'maximum': 12}, {'kind': 'uniform', 'a': 1.0, 'b': 11.0, 'n': 40, 'seed': 36}),
+        (U.TruncatedGaussian, [-3.0], {'maximum': 0}, {'kind': 'uniform', 'a': -2.5, 'b': -0.5, 'n': 40, 'seed': 37}),
+        (U.TruncatedGaussian, [], {'random_state': 0}), (U.GaussianKDE, [], {'random_state': 0}),
+        (U.GaussianKDE, [], {'sample_size': 0}), (U.GaussianKDE, [0], {'bw_method': 'scott'}),
+        (U.Univariate, [], {'candidates': []}), (U.Univariate, [[U.GaussianUnivariate, U.UniformUnivariate]], {'selection_sample_size': 0}),
+        (U.Univariate, [], {'candidates': [U.GaussianUnivariate], 'random_state': 0}),
+        (GaussianMultivariate, [], {'distribution': U.GaussianUnivariate, 'random_state': 0}),
+        (VineCopula, ['center'], {'random_state': 0}), (VineCopula, [], {'vine_type': 'direct', 'random_state': 0}),
     ]
-    return ps
+    return [p if len(p) == 4 else p + (None,) for p in ps]
 
 
 def check_get_instance(ctx, lean):
@@ -996,16 +1062,26 @@ def check_get_instance(ctx, lean):
         return t
     A = make_data({'kind': 'normal', 'a': 5.0, 'b': 2.0, 'n': 40, 'seed': 21})
     frame = mv_frame({'n': 40, 'k': 3, 'seed': 22})
-    for cls, pos, kw in prototypes():
+    small_frame = mv_frame({'n': 30, 'k': 3, 'seed': 23})
+    for cls, pos, kw, fit_desc in prototypes():
         params = [p for p in inspect.signature(cls.__init__).parameters if p != 'self']
+        given = dict(zip(params, pos), **kw)
+        falsy_given = sorted(k for k, v in given.items() if v is not None and not isinstance(v, np.ndarray) and not v)
         fqn = cls.__module__ + '.' + cls.__name__
         forms = [('name', False, {}), ('class', False, {}), ('inst', False, {}), ('inst', True, {}),
                  ('inst', True, {'random_state': 9}), ('class', False, dict(zip(params, pos), **kw)),
                  ('name', False, dict(zip(params, pos), **kw))]
         for form, fitted, kwargs in forms:
-            with warnings.catch_warnings():
-                warnings.simplefilter('ignore')
-                proto = cls(*copy.deepcopy(pos), **copy.deepcopy(kw))
+            try:
+                with warnings.catch_warnings():
+                    warnings.simplefilter('ignore')
+                    proto = cls(*copy.deepcopy(pos), **copy.deepcopy(kw))
+            except Exception as e:  # noqa
+                ctx.fail_input(f'{cls.__name__}.__init__', {'class': cls.__name__, 'args': repr(pos), 'kwargs': repr(kw)[:200]},
+                               type(e).__name__ + ': ' + str(e)[:120], 'a legal prototype can be constructed (and then cloned)',
+                               'store_args:constructor-raises')
+                bad = bad or {'class': cls.__name__, 'kwargs': repr(kw)[:120], 'constructor raised': type(e).__name__}
+                break
             if fitted:
                 try:
                     _quiet(fit_pinned, proto, frame if hasattr(proto, 'univariates') or hasattr(proto, 'vine_type') else A, 5)
@@ -1070,14 +1146,43 @@ def check_get_instance(ctx, lean):
                 with warnings.catch_warnings():
                     warnings.simplefilter('ignore')
                     like = cls(*copy.deepcopy(pos), **copy.deepcopy(kw))
-                if not feq(config_view(g), config_view(like)):
+                key = 'get_instance:falsy-option-lost' if falsy_given else 'get_instance:options-not-reproduced'
+                config_lost = not feq(config_view(g), config_view(like))
+                if config_lost:
                     lost = sorted(k for k in config_view(like) if not feq(config_view(like)[k], config_view(g).get(k)))
                     if not hasattr(proto, '__args__'):
                         lossy.setdefault(cls.__name__, lost)
                     else:
-                        ctx.fail_input('copulas.utils.get_instance', where, {'lost': lost, 'clone': config_view(g)},
-                                       'the clone is configured like the prototype', 'get_instance:options-not-reproduced')
+                        ctx.fail_input('copulas.utils.get_instance', dict(where, falsy_options_given=falsy_given),
+                                       {'lost': lost, 'clone': config_view(g), 'directly_constructed': config_view(like)},
+                                       'the clone is configured like the prototype', key)
                         bad = bad or dict(where, lost=lost)
+                # ... and BEHAVES like it: fit the clone and a directly constructed equal object on the same data
+                if not fitted and (hasattr(proto, '__args__') or not given):
+                    is_mv = hasattr(like, 'distribution') or hasattr(like, 'vine_type')
+                    X = small_frame if is_mv else (make_data(fit_desc) if fit_desc else A)
+                    outs = []
+                    for obj in (g, like):
+                        try:
+                            with poisoned_empty(float('nan')):      # vines: uninitialised reads made deterministic
+                                _quiet(fit_pinned, obj, X, 6)
+                                outs.append(mv_view(obj) if is_mv else observe(obj))
+                        except Exception as e:  # noqa
+                            outs.append('raised ' + type(e).__name__)
+                    ctx.case(('clone-behaviour', cls.__name__, repr(pos), repr(sorted(kw))))
+                    ctx.count('clone:fitted-behaviour-compared')
+                    same = (outs[0] == outs[1]) if (is_mv or isinstance(outs[0], str) or isinstance(outs[1], str)) \
+                        else obs_equal(outs[0], outs[1])
+                    if not same and not config_lost:
+                        key = 'get_instance:clone-fits-differently'
+                    if not same:
+                        diff = obs_diff(outs[0], outs[1]) if isinstance(outs[0], dict) and isinstance(outs[1], dict) else 'to_dict/raised'
+                        ctx.fail_input('copulas.utils.get_instance', dict(where, falsy_options_given=falsy_given, fit_data=fit_desc or 'A'),
+                                       {'differs': diff, 'clone': _brief(outs[0]) if isinstance(outs[0], dict) else str(outs[0])[:200],
+                                        'directly_constructed': _brief(outs[1]) if isinstance(outs[1], dict) else str(outs[1])[:200]},
+                                       'the clone, fitted on X, is observably identical to an object constructed like the prototype '
+                                       'and fitted on X', key)
+                        bad = bad or dict(where, fitted_behaviour_differs=diff)
     ctx.ob(name, bad is None, 'tie', bad or 'ok')
     # static table vs what was observed
     rows = {r.split(':')[0]: r.split(':') for r in lean.ask('life classes').split()}
@@ -1093,21 +1198,33 @@ def check_get_instance(ctx, lean):
     import copulas.univariate as U
     from copulas.multivariate import GaussianMultivariate
     snap_bad = None
-    cands = [U.GaussianUnivariate]
-    u = U.Univariate(candidates=cands)
-    cands.append(U.UniformUnivariate)
-    if [c.__name__ for c in get_instance(u).candidates] != ['GaussianUnivariate']:
-        snap_bad = 'Univariate(candidates=list) then list.append'
-    dist = {'a': U.GaussianKDE}
-    gm = GaussianMultivariate(distribution=dist)
-    dist['b'] = U.BetaUnivariate
-    if sorted(get_instance(gm).distribution) != ['a']:
-        snap_bad = snap_bad or 'GaussianMultivariate(distribution=dict) then dict[...] = ...'
-    w = np.ones(5)
-    k = U.GaussianKDE(weights=w)
-    w[0] = 9.0
-    if float(get_instance(k).weights[0]) != 1.0:
-        snap_bad = snap_bad or 'GaussianKDE(weights=array) then array[0] = ...'
+
+    def _s1():
+        cands = [U.GaussianUnivariate]
+        u = U.Univariate(candidates=cands)
+        cands.append(U.UniformUnivariate)
+        return [c.__name__ for c in get_instance(u).candidates] == ['GaussianUnivariate']
+
+    def _s2():
+        dist = {'a': U.GaussianKDE}
+        gm = GaussianMultivariate(distribution=dist)
+        dist['b'] = U.BetaUnivariate
+        return sorted(get_instance(gm).distribution) == ['a']
+
+    def _s3():
+        w = np.ones(5)
+        k = U.GaussianKDE(weights=w)
+        w[0] = 9.0
+        return float(get_instance(k).weights[0]) == 1.0
+    for label, f in (('Univariate(candidates=list) then list.append', _s1),
+                     ('GaussianMultivariate(distribution=dict) then dict[...] = ...', _s2),
+                     ('GaussianKDE(weights=array) then array[0] = ...', _s3)):
+        try:
+            ok = f()
+        except Exception as e:  # noqa
+            ok, label = False, label + ' raised ' + type(e).__name__
+        if not ok:
+            snap_bad = snap_bad or label
     ctx.case(('clone', 'snapshot'))
     if snap_bad:
         ctx.fail_input('copulas.utils.store_args', {'scenario': snap_bad}, 'the clone sees the later mutation',
@@ -1120,6 +1237,58 @@ def check_get_instance(ctx, lean):
     if g2.candidates is u2.__kwargs__['candidates']:
         ctx.notes.append('observation (not claimed): get_instance passes the prototype\'s recorded __kwargs__ objects to the clone, '
                          'so clone.candidates IS prototype.__kwargs__["candidates"]; mutating a clone\'s list changes later clones')
+
+
+def check_clone_indirect(ctx):
+    """prototypes reach get_instance indirectly: GaussianMultivariate(distribution=<instance>) and
+    Univariate(candidates=[<instance>]) must fit marginals configured like the instance given."""
+    import copulas.univariate as U
+    from copulas.multivariate import GaussianMultivariate
+    bad = None
+    cases = [({'minimum': 0, 'maximum': 12}, (1.0, 11.0)), ({'maximum': 0}, (-9.0, -1.0)), ({'minimum': 0.0}, (1.0, 11.0)),
+             ({'minimum': -50.0, 'maximum': 90.0}, (1.0, 11.0))]
+    for kw, (lo, hi) in cases:
+        rs = np.random.RandomState(41)
+        frame = pd.DataFrame({'a': rs.uniform(lo, hi, 40), 'b': rs.uniform(lo, hi, 40)})
+        direct = {}
+        for c in frame:
+            d = U.TruncatedGaussian(**kw)
+            _quiet(fit_pinned, d, frame[c], 7)      # a Series, as GaussianMultivariate passes it (Series.std is ddof=1)
+            direct[c] = observe(d)
+        routes = {
+            'GaussianMultivariate(distribution=<instance>)': lambda: GaussianMultivariate(distribution=U.TruncatedGaussian(**kw)),
+            'GaussianMultivariate(distribution={col: <instance>})':
+                lambda: GaussianMultivariate(distribution={c: U.TruncatedGaussian(**kw) for c in frame}),
+            'GaussianMultivariate(distribution=Univariate(candidates=[<instance>]))':
+                lambda: GaussianMultivariate(distribution=U.Univariate(candidates=[U.TruncatedGaussian(**kw)])),
+        }
+        for label, mk in routes.items():
+            try:
+                gm = mk()
+                _quiet(fit_pinned, gm, frame, 7)
+            except Exception:  # noqa
+                ctx.count('clone-indirect:fit-raised')
+                continue
+            ctx.case(('clone-indirect', label, repr(kw)))
+            ctx.count('clone-indirect:compared')
+            for c, uni in zip(gm.columns, gm.univariates):
+                got = observe(uni)
+                got['fitted'] = True
+                if type(uni).__name__ == 'Univariate':
+                    uni = uni._instance
+                if type(uni).__name__ != 'TruncatedGaussian':
+                    continue            # the fallback / another candidate was selected: nothing to compare
+                if not obs_equal(got, direct[c]):
+                    falsy = sorted(k for k, v in kw.items() if not v)
+                    key = 'get_instance:falsy-option-lost' if falsy else 'get_instance:options-not-reproduced'
+                    ctx.fail_input('copulas.utils.get_instance', {'route': label, 'marginal': f'TruncatedGaussian(**{kw})', 'column': c,
+                                                                   'data': f'uniform({lo},{hi}) n=40 seed=41'},
+                                   {'differs': obs_diff(got, direct[c]), 'marginal_in_model': _brief(got), 'bounds_in_model':
+                                    [uni.min, uni.max], 'directly_fitted': _brief(direct[c])},
+                                   'a marginal built from an instance prototype is configured like the prototype', key)
+                    bad = bad or {'route': label, 'kwargs': kw, 'column': c, 'differs': obs_diff(got, direct[c])}
+                    break
+    ctx.ob('oracle:get_instance-indirect', bad is None, 'tie', bad or 'ok')
 
 
 # ------------------------------------------------------------------------- uninitialised memory
@@ -1192,23 +1361,61 @@ def check_uninit(ctx, configs):
 
 
 # ------------------------------------------------------------------------- entry points
+def _phase(ctx, name, f, *a):
+    """one part of the check; an exception inside it is that part's broken obligation and does not stop the
+    others (in particular not the oracles that produce concrete failing inputs)."""
+    import traceback
+    try:
+        return f(*a)
+    except Exception:  # noqa
+        ctx.ob(f'harness:{name}', False, 'tie', traceback.format_exc()[-700:])
+        return None
+
+
+def _one_thread(f):
+    """BLAS/LAPACK on one thread: the problems are tiny (n <= 80) and a busy machine otherwise costs
+    ~20-60 ms of thread wake-up per gaussian_kde.evaluate call."""
+    import functools
+
+    @functools.wraps(f)
+    def g(*a, **k):
+        try:
+            from threadpoolctl import threadpool_limits
+            import scipy.linalg  # noqa: F401  (load scipy's own OpenBLAS before limiting: only loaded libraries are limited)
+            import scipy.stats  # noqa: F401
+        except ImportError:
+            return f(*a, **k)
+        with threadpool_limits(limits=1):
+            return f(*a, **k)
+    return g
+
+
+@_one_thread
 def run(ctx, lean):
-    flags = tie_histories(ctx, lean)
-    tie_wrapper(ctx, lean)
-    tie_query_dispatch(ctx, lean)
+    flags = _phase(ctx, 'tie_histories', tie_histories, ctx, lean)
+    _phase(ctx, 'tie_wrapper', tie_wrapper, ctx, lean)
+    _phase(ctx, 'tie_query_dispatch', tie_query_dispatch, ctx, lean)
+    _phase(ctx, 'rest', _run_rest, ctx, lean, flags)
+
+
+def _run_rest(ctx, lean, flags):
     # the recorded re-fit leaks, surfaced with concrete witnesses by the oracle on the real code
-    found, n = oracle_uni(ctx, ctx.rng('oracle-run'), 1 * ctx.scale)
-    if flags is not None:
+    r = _phase(ctx, 'oracle_uni', oracle_uni, ctx, ctx.rng('oracle-run'), 1 * ctx.scale)
+    found = r[0] if r is not None else {}
+    if flags is not None and r is not None:
         want = {K_OVR: flags[0], K_BND: flags[1], K_KDE: flags[2]}
+        found = {k: v for k, v in found.items() if k != K_STALE}      # not a flag of the model (see PARTIAL)
         agree = all((k in found) == (v == '1') for k, v in want.items() if v is not None)
         unknown = sorted(k for k in found if k not in want)
         ctx.ob('corr:variant-vs-oracle', agree and not unknown, 'tie',
                {'variant_flags(keepOverride,rememberBounds,cacheSize)': flags, 'oracle_found': found})
-    bad, n2 = oracle_multi(ctx, ctx.rng('multi-run'), 2 * ctx.scale)
-    ctx.ob('oracle:refit-multivariate', bad is None, 'tie', bad or f'ok ({n2} pairs)')
-    check_unfitted(ctx, lean)
-    check_invalid(ctx, lean)
-    check_get_instance(ctx, lean)
+    r = _phase(ctx, 'oracle_multi', oracle_multi, ctx, ctx.rng('multi-run'), 2 * ctx.scale)
+    if r is not None:
+        ctx.ob('oracle:refit-multivariate', r[0] is None, 'tie', r[0] or f'ok ({r[1]} pairs)')
+    _phase(ctx, 'check_unfitted', check_unfitted, ctx, lean)
+    _phase(ctx, 'check_invalid', check_invalid, ctx, lean)
+    _phase(ctx, 'check_get_instance', check_get_instance, ctx, lean)
+    _phase(ctx, 'check_clone_indirect', check_clone_indirect, ctx)
     cfg = [('center', 5, 60, 3, 1), ('direct', 4, 60, 3, 2), ('direct', 5, 60, 3, 3), ('regular', 5, 60, 3, 4), ('regular', 6, 60, 3, 5)]
     rng = ctx.rng('uninit-run')
     cfg += [(rng.choice(['center', 'direct', 'regular']), rng.choice([4, 5, 6]), rng.randint(40, 70), 3, rng.randrange(1 << 20))
@@ -1217,6 +1424,7 @@ def run(ctx, lean):
     ctx.notes.append(f'uninitialised-memory differential: {n3} vines, findings {f}')
 
 
+@_one_thread
 def search(ctx, deep):
     rng = ctx.rng('search')
     scale = 6 if deep else 1
@@ -1229,11 +1437,13 @@ def search(ctx, deep):
                    'uninitialised_findings': f, 'deep': deep}
 
 
+@_one_thread
 def replay(ctx, payload):
     cls_key = payload.get('class')
     inp = payload.get('input', {})
     before = len(ctx.failing)
-    if cls_key in (K_OVR, K_BND, K_KDE) or str(cls_key).endswith('.fit:refit-differs-from-fresh') and 'history' in inp:
+    if cls_key in (K_OVR, K_BND, K_KDE, K_STALE) or str(cls_key).endswith(('.fit:refit-differs-from-fresh', '-override-survives-refit')) \
+            and 'history' in inp:
         import copulas.univariate as U
         cls = getattr(U, inp['class'])
         refit_oracle(ctx, cls, inp.get('ctor_raw', {}), inp['history'], inp['seed0'])
@@ -1247,10 +1457,12 @@ def replay(ctx, payload):
         except Exception:  # noqa
             lean = None
         try:
-            check_unfitted(ctx, lean)
-            check_invalid(ctx, lean)
-            check_get_instance(ctx, lean)
-            oracle_multi(ctx, ctx.rng('replay'), 2)
+            for f, a in ((check_unfitted, (ctx, lean)), (check_invalid, (ctx, lean)), (check_get_instance, (ctx, lean)),
+                         (check_clone_indirect, (ctx,)), (oracle_multi, (ctx, ctx.rng('replay'), 2))):
+                try:
+                    f(*a)
+                except Exception:  # noqa
+                    pass
         finally:
             if lean is not None:
                 lean.close()
